@@ -588,9 +588,10 @@ class InferenceManager:
                 },
             )
 
-        for index, query in enumerate(queries.conditionals.values()):
+        for index, (query_key, query) in enumerate(queries.conditionals.items()):
             query = str(query)
-            df.at[index, "index"] = results[query][0]
+            # results are keyed by query text; each row carries its own query's key
+            df.at[index, "index"] = query_key
             df.at[index, "result"] = results[query][1]
             df.at[index, "preprocessing_timed_out"] = self.epistemic_state[
                 "preprocessing_timed_out"
